@@ -648,11 +648,24 @@ theorem next_within (st : RState) (h1 : st.err = false) (h2 : st.cursor < st.row
   unfold RState.next
   rw [if_neg (by simp [h1]; omega), if_neg (by omega)]
 
+/-- a loaded row group that holds rows stops the skipping loop at once -/
+theorem skipEmpty_nonempty (fuel : Nat) (st : RState) (h : st.rgCount ≠ 0) : st.skipEmpty fuel = .ok st := by
+  cases fuel with
+  | zero => rfl
+  | succ f => rw [RState.skipEmpty, if_neg (by simp [h])]
+
+/-- ... and so does the end of the row groups -/
+theorem skipEmpty_nil (fuel : Nat) (st : RState) (h : st.rowGroups = []) : st.skipEmpty fuel = .ok st := by
+  cases fuel with
+  | zero => rfl
+  | succ f => rw [RState.skipEmpty, if_neg (by simp [h])]
+
 theorem next_load (st st' : RState) (h1 : st.err = false) (h2 : st.cursor < st.rows) (h3 : st.rgCursor ≥ st.rgCount)
-    (h4 : st.readRowGroup = .ok st') :
+    (h4 : st.readRowGroup = .ok st') (h5 : st'.rgCount ≠ 0) :
     st.next = .ok (true, { st' with cursor := st'.cursor + 1, rgCursor := st'.rgCursor + 1 }) := by
   unfold RState.next
   rw [if_neg (by simp [h1]; omega), if_pos h3, h4]
+  simp only [skipEmpty_nonempty _ st' h5]
 
 theorem next_done (st : RState) (h1 : st.err = false) (h2 : st.cursor ≥ st.rows) : st.next = .ok (false, st) := by
   unfold RState.next
@@ -775,6 +788,7 @@ theorem readLoop_inv (dc : Decomp) (k : Codec) (cols : List Col) {max : Nat} (hm
             Int.natCast_zero, Int.add_zero] at hN hrn hf
           have hload := readRowGroup_batch dc k cols hmax hres (r :: b') bs hbs pre post N cu rc rn (bufsOf cols []) true
           have hnext := next_load _ _ rfl (by simp only; omega) (by simp only; omega) hload
+            (by simp only [List.length_cons]; omega)
           rw [readLoop_step f _ _ acc _ _ hnext rfl rfl (scanAll_bufsOf cols r b' hrecs)]
           simp only
           have hfile2 : pre ++ prgsBytes k (prgsOf cols max ((r :: b') :: bs)) ++ post =
@@ -1082,6 +1096,19 @@ theorem readRowGroup_cols (st st' : RState) (h : st.readRowGroup = .ok st') : st
       have := readRowGroup_go_cols _ _ _ hgo
       exact this
 
+theorem skipEmpty_cols : ∀ (fuel : Nat) (st st' : RState), st.skipEmpty fuel = .ok st' → st'.cols = st.cols
+  | 0, st, st', h => by simp only [RState.skipEmpty, Except.ok.injEq] at h; rw [← h]
+  | fuel+1, st, st', h => by
+    rw [RState.skipEmpty] at h
+    split at h
+    · cases hr : st.readRowGroup with
+      | error e => rw [hr] at h; exact absurd h (by simp)
+      | ok st2 =>
+        rw [hr] at h
+        simp only at h
+        rw [skipEmpty_cols fuel st2 st' h, readRowGroup_cols _ _ hr]
+    · simp only [Except.ok.injEq] at h; rw [← h]
+
 theorem next_cols (st st' : RState) (b : Bool) (h : st.next = .ok (b, st')) : st'.cols = st.cols := by
   unfold RState.next at h
   split at h
@@ -1097,10 +1124,19 @@ theorem next_cols (st st' : RState) (b : Bool) (h : st.next = .ok (b, st')) : st
         | err => simp only [Except.ok.injEq, Prod.mk.injEq] at h; rw [← h.2]
       | ok st2 =>
         rw [hr] at h
-        simp only [Except.ok.injEq, Prod.mk.injEq] at h
-        rw [← h.2]
-        have := readRowGroup_cols _ _ hr
-        exact this
+        simp only at h
+        cases hs : st2.skipEmpty st2.rowGroups.length with
+        | error e =>
+          rw [hs] at h
+          cases e with
+          | panic => exact absurd h (by simp)
+          | err => simp only [Except.ok.injEq, Prod.mk.injEq] at h; rw [← h.2]
+        | ok st3 =>
+          rw [hs] at h
+          simp only [Except.ok.injEq, Prod.mk.injEq] at h
+          rw [← h.2]
+          show st3.cols = st.cols
+          rw [skipEmpty_cols _ _ _ hs, readRowGroup_cols _ _ hr]
     · rw [if_neg hc] at h
       simp only [Except.ok.injEq, Prod.mk.injEq] at h
       rw [← h.2]
